@@ -499,7 +499,7 @@ async fn scenario(w: &mut World, rng: &mut Rng, acc: &mut Acc, use_passkeys: boo
 }
 
 pub fn run(args: Args) {
-    let scenarios: u64 = args.tier.pick(640, 12_000);
+    let scenarios: u64 = args.tier.pick(640, 8_000);
     let mut run = Run::new(
         args.clone(),
         "exploration",
